@@ -917,9 +917,18 @@ impl SetU32 {
             }
             InternalMut::Heap { s, a } => {
                 if compute_array_bits(e) < s.bits {
-                    let newcap = s.cap + 1 + (crate::rand::rand32(s.cap, s.bits) % s.cap);
-                    let mut new =
-                        Self::with_capacity_and_bits(newcap as usize, compute_array_bits(e));
+                    // Size the new table for the buckets it will need with the
+                    // narrower bitmaps (as `from_iter` does), not from the old
+                    // capacity, which would otherwise multiply on every such insert.
+                    let newbits = compute_array_bits(e);
+                    let r = crate::rand::rand32(s.cap, s.bits) as usize;
+                    let mut keys: Vec<u32> = self.iter().map(|x| x / newbits.max(1)).collect();
+                    keys.sort();
+                    keys.dedup();
+                    let needed = keys.len() + 1;
+                    // (the extra eighth keeps the table from counting as full)
+                    let newcap = needed + 1 + needed / 8 + r % needed;
+                    let mut new = Self::with_capacity_and_bits(newcap, newbits);
                     // new.debug_me("\n\nnew set");
                     for d in self.iter() {
                         new.insert(d);
